@@ -1,10 +1,17 @@
-"""pm_foot_validate.py <seed> <count> [show] — footnote pagination model vs the real layout."""
+"""pm_foot_validate.py <seed> <count> [show] — footnote pagination model vs the real layout.
+
+The stored footnote documents (corpus) and the deterministic family come first, then <count> generated documents
+(`VERIF_SEED`-independent: seeded by <seed>).  `VERIF_REPO=<tree>` runs the real layout of another tree (a seeded
+regression): the tool then also says how many disagreements are judged clause violations (a concrete failing input).
+"""
 import collections
+import os
 import pathlib
 import random
 import subprocess
 import sys
 
+sys.path.insert(0, os.environ.get('VERIF_REPO', '/repo'))
 sys.path.insert(0, str(pathlib.Path(__file__).resolve().parents[1]))
 from harness import docs, pm_foot, pm_foot_corr  # noqa: E402
 
@@ -13,35 +20,47 @@ seed = int(sys.argv[1]) if len(sys.argv) > 1 else 0
 n = int(sys.argv[2]) if len(sys.argv) > 2 else 20
 show = int(sys.argv[3]) if len(sys.argv) > 3 else 1
 rng = random.Random(seed)
-ds, lines, reals = [], [], []
-for _ in range(n):
-    d = pm_foot.gen_doc(rng)
+names, ds, lines, reals = [], [], [], []
+fixed = pm_foot_corr.corpus_docs() + pm_foot.family_docs(thorough=n >= 1000)
+for index in range(len(fixed) + n):
+    name, d = fixed[index] if index < len(fixed) else (None, pm_foot.gen_doc(rng))
+    names.append(name)
     ds.append(d)
     lines.append(pm_foot.doc_line(d))
     reals.append(pm_foot_corr.real_line(d))
 exe = pathlib.Path(__file__).resolve().parents[2] / 'lean/.lake/build/bin/driver_s2foot'
 out = subprocess.run([str(exe)], input='\n'.join(lines) + '\n', capture_output=True, text=True).stdout.split('\n')
 bad = 0
+bad_fixed = []
 judged = collections.Counter()
+judged_bad = 0
 raised = collections.Counter()
-for d, l, r, m in zip(ds, lines, reals, out):
-    for name, judge in (('conservation', pm_foot_corr.conservation_violation),
-                        ('progress', pm_foot_corr.progress_violation),
-                        ('overlap', pm_foot_corr.overlap_violation)):
+JUDGES = (('conservation', pm_foot_corr.conservation_violation), ('progress', pm_foot_corr.progress_violation),
+          ('overlap', pm_foot_corr.overlap_violation))
+for name, d, l, r, m in zip(names, ds, lines, reals, out):
+    violations = []
+    for jname, judge in JUDGES:
         v = judge(d, r)
         if v:
-            judged[name + ': ' + v.split(' ')[0] + ' ' + ' '.join(v.split(' ')[1:3])[:30]] += 1
+            violations.append(v)
+            judged[jname + ': ' + v.split(' ')[0] + ' ' + ' '.join(v.split(' ')[1:3])[:30]] += 1
     if r.startswith('err:') and r != 'err:pagination':
         raised[r] += 1          # outside the modelled functions (left to C02, as in pm_corr.add_cases)
         continue
     if r != m:
         bad += 1
+        judged_bad += bool(violations)
+        if name is not None:
+            bad_fixed.append(name)
         if bad <= show:
-            print('DOC', pm_foot.doc_html(d))
+            print('DOC', name or '', pm_foot.doc_html(d))
             print('LINE', l)
             print('REAL ', r)
             print('MODEL', m)
-print('bad', bad, 'of', n - sum(raised.values()), '(implementation raised outside the model:', dict(raised), ')')
+            print('JUDGED', violations)
+print('bad', bad, 'of', len(ds) - sum(raised.values()), '(implementation raised outside the model:', dict(raised), ')')
+print('disagreements judged clause violations (concrete failing inputs):', judged_bad,
+      '; among the', len(fixed), 'corpus/family documents:', bad_fixed[:12])
 print(collections.Counter(r.split('@')[0] if r.startswith('err') else 'pages' for r in reals).most_common(6))
 print(sorted(collections.Counter(r.count('(page') for r in reals).items()))
 print('clause violations on the implementation output:', dict(judged))
